@@ -18,6 +18,9 @@ WHEN = ["first", "checkpoint", "1s"]
 
 
 def failing_desc(ident, flavour, how, when):
+    if when == "at-call":
+        # the callable raises when it is called: there never is an awaitable
+        return {"id": ident, "flavour": flavour, "steps": [], "call_raises": how[1]}
     steps = []
     if when == "checkpoint":
         steps.append(("spin", 1))
@@ -75,6 +78,10 @@ class Scenario:
                             "steps": [("spin", None)]})
         elif bystanders == "blocked":
             kit.submit({"id": "by-threading", "flavour": "threading", "steps": [("block",)]})
+        elif bystanders == "stubborn":
+            # a coroutine that finishes its current item before it gives in to a cancellation
+            kit.submit({"id": "by-asyncio", "flavour": "asyncio",
+                        "steps": [("stubborn", 1, 0.3)]})
 
         def outside_early(desc):
             # does not wait for the runtime: wherever the schedule lets the call land
@@ -214,6 +221,17 @@ def scenario_params(tier):
             continue
         for reg in (["queued", "outside"] if tier == "quick" else REGISTRATIONS):
             out.append({"failing": (flavour, how, when, reg), "bystanders": bystanders})
+    # 2a. coroutine flavours: the callable fails when it is called (no awaitable ever exists)
+    for flavour, how, reg in itertools.product(
+            ["asyncio", "trio"], [("raise", "LookupError"), ("raise", "TypeError")],
+            REGISTRATIONS):
+        if tier == "quick" and how[1] == "TypeError" and reg not in ("queued", "outside"):
+            continue
+        out.append({"failing": (flavour, how, "at-call", reg), "bystanders": "none"})
+    # 2b. a bystander that absorbs its first cancellation
+    for flavour, how in itertools.product(FLAVOURS, [("raise", "LookupError"), ("return", "0")]):
+        for reg in ("queued", "outside"):
+            out.append({"failing": (flavour, how, "1s", reg), "bystanders": "stubborn"})
     # 3. two payloads failing at the same virtual instant
     for (fl_a, fl_b), how_a, how_b in itertools.product(
             itertools.product(FLAVOURS, FLAVOURS),
